@@ -110,6 +110,8 @@ pub struct Behaviour {
     pub always_attach_record: bool,
     /// Record bytes to return for distance 0 instead of the peer's own record.
     pub nodes_record_override: Option<Vec<u8>>,
+    /// Records to return for distance 0 (in this order) instead of the peer's one own record.
+    pub nodes_records_list: Option<Vec<Vec<u8>>>,
     /// Never answers FINDNODE [0] (the request a node sends to learn this peer's record).
     pub ignore_enr_requests: bool,
 }
@@ -125,6 +127,7 @@ impl Default for Behaviour {
             known_victim_seq: 0,
             always_attach_record: false,
             nodes_record_override: None,
+            nodes_records_list: None,
             ignore_enr_requests: false,
         }
     }
@@ -495,7 +498,7 @@ impl Engine {
                     .map(|k| RefMessage::Nodes {
                         id: id.clone(),
                         total,
-                        records: if k == 0 && distances.contains(&0) { vec![own.clone()] } else { vec![] },
+                        records: if k == 0 && distances.contains(&0) { self.peers[i].behaviour.nodes_records_list.clone().unwrap_or_else(|| vec![own.clone()]) } else { vec![] },
                     })
                     .collect()
             }
